@@ -617,6 +617,7 @@ func (w *vkWorld) vkQueryCases(rot int, q vkQuery, kinds []vkKind) {
 				c.DistinctStr("nontrivial", fmt.Sprintf("%d|%s|%d|%s", rot, q, pos, k.Name))
 			} else {
 				c.Add("tamper_not_reached", 1)
+				c.Note(fmt.Sprintf("tamper not reached: %s elapsed=%v outcomes=%v path=[%s]", s, r.elapsed, r.outcomes, vkPathStr(r.firstPath)))
 			}
 			out := r.outcomes[0]
 			if strings.HasPrefix(out, "truth") && r.upstream > r0.upstream {
